@@ -37,6 +37,16 @@ CHECKS = {
  "C18": dict(level="model_checking", design="5/C18", technique="declarative TLA+ spec of the minimal LRU prefix (Eviction) enumerated by TLC with its set of valid answers; each state materialised as a real cache directory and reduce_size called",
              text="Exhaustive over canonical stores with <= 3 items x limit combinations (thorough; sampled in quick, plus 4-item stores): the evicted set must be one of the valid answers, survivors load, evicted entries recompute.",
              note="Trusted base: TLC; tie-tolerant reading of LRU order; age boundaries avoided by half a step."),
+
+ "C03": dict(level="exploration", design="5/C03", technique="TLA+ decision table (Persist) and object-graph enumerator (ObjGraph) run by TLC; one round-trip test per state (all targets, renamed to every extension), identity-preserving isomorphism check, payload size classes",
+             text="Every configuration of the dump lattice is checked against the decision table and round-tripped through every target and name; ~7k enumerated object graphs with sharing/cycles are round-tripped; size classes around buffer boundaries.",
+             note="Fidelity is decided by comparison with the original object; the specification decides writer/reader selection and enumerates. lz4 not installed."),
+ "C13": dict(level="model_checking", design="5/C13", technique="TLA+ reference stream (ZlibStream): TLC generates every operation sequence of bounded length with its dictated responses; replayed on BinaryZlibFile/BinaryGzipFile with io.BytesIO as second oracle; write side decoded by zlib/gzip",
+             text="All operation sequences of length 3 (quick) / 4 (thorough) over boundary operands and payload sizes are replayed on both classes; write chunkings x levels decoded by the standard decoders.",
+             note="Trusted base: TLC; zlib/gzip from the standard library as decoders."),
+ "C14": dict(level="fault_enumeration", design="5/C14", technique="TLA+ model of the refill loop (ZlibFill) with liveness (Terminates) checked by TLC for every raw-file shape; truncations and trailing bytes of real joblib files loaded under a watchdog; damaged cache entries recomputed",
+             text="Every raw-file shape of the refill loop terminates in the model; on the real code every truncation (all lengths for small files in thorough) and 5 kinds of trailing bytes for 6 compressors incl. block-boundary-tuned files: load must terminate and raise or return the original; every truncation of a cached output.pkl must lead to recomputation.",
+             note="Trusted base: TLC; watchdog 10 s and 3 GiB address-space limit define hang / runaway."),
 }
 NA_REASON = "check not built yet (construction in progress, see DESIGN.md section 8c build order)"
 M = {"version": 1, "setup_cmd": "make -C /verif",
@@ -46,6 +56,7 @@ M = {"version": 1, "setup_cmd": "make -C /verif",
      "engines": [{"name": "tlc", "path": "engine/tlc.py", "serves_properties": sorted(CHECKS), "kind_free_text": "TLC 1.8 runner: model check, simulate, batched trace validation (specs/*.tla)"},
                  {"name": "parallel-drivers", "path": "harness/pl1.py", "serves_properties": ["C01", "C04", "C09", "C16"], "kind_free_text": "controlled backend + deterministic drivers of the real joblib.Parallel"},
                  {"name": "memory-programs", "path": "checks/memargs.py", "serves_properties": ["C02", "C06", "C12", "C18"], "kind_free_text": "generated programs / histories / stores replayed on real joblib.Memory"},
+                 {"name": "persistence-workers", "path": "harness/persist_worker.py", "serves_properties": ["C03", "C13", "C14"], "kind_free_text": "round-trip / stream / damaged-file workers"},
                  {"name": "fs-interposer", "path": "harness/fsctl.py", "serves_properties": ["C05", "C11"], "kind_free_text": "LD_PRELOAD interposer + controller: crash injection, torn writes, turn-based scheduling of real processes"}],
      "checks": [], "notes": "see DESIGN.md; KNOWN_FINDINGS.jsonl lists repaired (fixed) and open findings",
      "not_applicable": []}
